@@ -434,29 +434,37 @@ func lit64(f float64) string {
 	return "(" + s + ")"
 }
 
+// runCorpus runs the handwritten programs of corpus/<dir> (shapes that once slipped through; an optional first line
+// "// imports: a b" names the bundled packages a program uses) through the Go toolchain differential
+func (c *Ctx) runCorpus(dir string) error {
+	files, _ := filepath.Glob(filepath.Join(c.Corpus, dir, "*.go"))
+	if len(files) == 0 {
+		return nil
+	}
+	sort.Strings(files)
+	var progs []GoProg
+	var feats []map[string]bool
+	for _, f := range files {
+		b, err := os.ReadFile(f)
+		if err != nil {
+			return err
+		}
+		gp := GoProg{Src: string(b)}
+		if first := strings.SplitN(gp.Src, "\n", 2)[0]; strings.HasPrefix(first, "// imports: ") {
+			gp.Imports = strings.Fields(strings.TrimPrefix(first, "// imports: "))
+		}
+		progs = append(progs, gp)
+		feats = append(feats, map[string]bool{"corpus-" + strings.TrimSuffix(filepath.Base(f), ".go"): true})
+	}
+	return c.goDiff("go-toolchain-corpus", progs, feats)
+}
+
 func runC01(c *Ctx) error {
 	// a corpus of handwritten programs first: the shapes that once showed a defect (named constants, rune and
 	// named-type conversions, copy as a value, nil comparisons, operand order of assignments, blank parameters,
 	// variadic methods, wide map keys)
-	if files, _ := filepath.Glob(filepath.Join(c.Corpus, "C01-programs", "*.go")); len(files) > 0 {
-		sort.Strings(files)
-		var progs []GoProg
-		var feats []map[string]bool
-		for _, f := range files {
-			b, err := os.ReadFile(f)
-			if err != nil {
-				return err
-			}
-			gp := GoProg{Src: string(b)}
-			if first := strings.SplitN(gp.Src, "\n", 2)[0]; strings.HasPrefix(first, "// imports: ") {
-				gp.Imports = strings.Fields(strings.TrimPrefix(first, "// imports: "))
-			}
-			progs = append(progs, gp)
-			feats = append(feats, map[string]bool{"corpus-" + strings.TrimSuffix(filepath.Base(f), ".go"): true})
-		}
-		if err := c.goDiff("go-toolchain-corpus", progs, feats); err != nil {
-			return err
-		}
+	if err := c.runCorpus("C01-programs"); err != nil {
+		return err
 	}
 	if c.Thorough() {
 		c.c01MathNative(20000)
